@@ -789,6 +789,10 @@ def normalize_slice(idx, dim):
             if stop is not None and start is not None and stop < start:
                 stop = start
         elif step < 0:
+            if start < 0:
+                # ``slice.indices`` reports "before the first element" as -1,
+                # which must not be read as "last element": nothing is selected
+                return slice(0, 0, step)
             if start >= dim - 1:
                 start = None
             if stop < 0:
